@@ -172,7 +172,7 @@ func specStateOK(s BatchedPrivateTokenRequestState) bool {
 		VCKey(s.client) == s.verificationKey && VCSuite(s.client) == oprf.SuiteRistretto255 &&
 		FDCount(s.verifier) == len(s.tokenInputs) && FDSuite(s.verifier) == oprf.SuiteRistretto255 &&
 		Forall(0, len(s.tokenInputs), func(k int) bool {
-			return len(s.tokenInputs[k]) == 98 && cap(s.tokenInputs[k]) == 98 && FDInput(s.verifier, k) == string(s.tokenInputs[k])
+			return len(s.tokenInputs[k]) == 98 && cap(s.tokenInputs[k]) == 98 && len(s.tokenInputs[k]) == 98 && FDInput(s.verifier, k) == string(s.tokenInputs[k])
 		})
 }
 
@@ -195,4 +195,56 @@ func specStateOK(s BatchedPrivateTokenRequestState) bool {
 //@   invariant 0 <= i && i <= numElements && len(elements) == numElements && fresh(elements)
 //@   invariant elementLength == 32 && len(encodedElements) == 32*numElements
 //@   invariant forall(0, i, func(j int) bool { return elements[j] != nil })
+//@ end
+
+// The batched client blinds one authenticator input per nonce under the issuer key it was given, and the
+// state it returns is bound to exactly that key (C02: later finalization checks the issuer's proof
+// against it).
+//
+//@ func (c BatchedPrivateClient) CreateTokenRequest(challenge []byte, nonce [][]byte, tokenKeyID []byte, verificationKey *oprf.PublicKey) (s BatchedPrivateTokenRequestState, err error)
+//@ props C02 C16
+//@ safety C02
+//@ requires len(tokenKeyID) == 32 && verificationKey != nil
+//@ requires forall(0, len(nonce), func(k int) bool { return len(nonce[k]) == 32 })
+//@ ensures err == nil ==> s.verificationKey == verificationKey && VCKey(s.client) == verificationKey && VCSuite(s.client) == oprf.SuiteRistretto255
+//@ ensures err == nil ==> s.verifier != nil && s.request != nil && fresh(s.request) && s.request.TokenKeyID == tokenKeyID[31] && s.request.raw == nil
+//@ ensures err == nil ==> len(s.tokenInputs) == len(nonce) && FDCount(s.verifier) == len(nonce) && FDSuite(s.verifier) == oprf.SuiteRistretto255 && len(s.request.BlindedReq) == len(nonce)
+//@ ensures err == nil ==> forall(0, len(nonce), func(k int) bool { return string(s.tokenInputs[k]) == tokens.SpecTokenInput(BatchedPrivateTokenType, string(nonce[k]), SHA256(string(challenge)), string(tokenKeyID)) && cap(s.tokenInputs[k]) == 98 && len(s.tokenInputs[k]) == 98 && FDInput(s.verifier, k) == string(s.tokenInputs[k]) })
+//@ ensures err == nil ==> specStateOK(s)
+//@ assigns none
+//@ loop 0 vars(i int, numTokens int, tokenInputs [][]byte)
+//@   invariant 0 <= i && i <= numTokens && numTokens == len(nonce) && len(tokenInputs) == numTokens && fresh(tokenInputs)
+//@   invariant forall(0, i, func(k int) bool { return fresh(tokenInputs[k]) && cap(tokenInputs[k]) == 98 && len(tokenInputs[k]) == 98 && string(tokenInputs[k]) == tokens.SpecTokenInput(BatchedPrivateTokenType, string(nonce[k]), SHA256(string(challenge)), string(tokenKeyID)) })
+//@ loop 1 vars(i int, numTokens int, encodedElements [][]byte, evalRequest *oprf.EvaluationRequest, tokenInputs [][]byte, finalizeData *oprf.FinalizeData)
+//@   invariant 0 <= i && i <= numTokens && numTokens == len(nonce) && len(encodedElements) == numTokens && fresh(encodedElements)
+//@   invariant evalRequest != nil && len(evalRequest.Elements) == numTokens
+//@   invariant len(tokenInputs) == numTokens && fresh(tokenInputs) && !SameSlice(tokenInputs, encodedElements)
+//@   invariant forall(0, numTokens, func(k int) bool { return fresh(tokenInputs[k]) && cap(tokenInputs[k]) == 98 && len(tokenInputs[k]) == 98 && string(tokenInputs[k]) == tokens.SpecTokenInput(BatchedPrivateTokenType, string(nonce[k]), SHA256(string(challenge)), string(tokenKeyID)) })
+//@   invariant forall(0, numTokens, func(k int) bool { return FDInput(finalizeData, k) == tokens.SpecTokenInput(BatchedPrivateTokenType, string(nonce[k]), SHA256(string(challenge)), string(tokenKeyID)) })
+//@ end
+
+//@ func (c BatchedPrivateClient) CreateTokenRequestWithBlinds(challenge []byte, nonces [][]byte, tokenKeyID []byte, verificationKey *oprf.PublicKey, encodedBlinds [][]byte) (s BatchedPrivateTokenRequestState, err error)
+//@ props C02 C11 C16
+//@ safety C02
+//@ requires len(tokenKeyID) == 32 && verificationKey != nil && len(encodedBlinds) == len(nonces)
+//@ requires forall(0, len(nonces), func(k int) bool { return len(nonces[k]) == 32 && len(encodedBlinds[k]) <= 32 })
+//@ ensures err == nil ==> s.verificationKey == verificationKey && VCKey(s.client) == verificationKey && VCSuite(s.client) == oprf.SuiteRistretto255
+//@ ensures err == nil ==> s.verifier != nil && s.request != nil && fresh(s.request) && s.request.TokenKeyID == tokenKeyID[31] && s.request.raw == nil
+//@ ensures err == nil ==> len(s.tokenInputs) == len(nonces) && FDCount(s.verifier) == len(nonces) && FDSuite(s.verifier) == oprf.SuiteRistretto255 && len(s.request.BlindedReq) == len(nonces)
+//@ ensures err == nil ==> forall(0, len(nonces), func(k int) bool { return string(s.tokenInputs[k]) == tokens.SpecTokenInput(BatchedPrivateTokenType, string(nonces[k]), SHA256(string(challenge)), string(tokenKeyID)) && cap(s.tokenInputs[k]) == 98 && len(s.tokenInputs[k]) == 98 && FDInput(s.verifier, k) == string(s.tokenInputs[k]) })
+//@ ensures[C11] err == nil ==> forall(0, len(nonces), func(k int) bool { return FDBlind(s.verifier, k) == string(encodedBlinds[k]) })
+//@ ensures err == nil ==> specStateOK(s)
+//@ assigns none
+//@ loop 0 vars(i int, numTokens int, tokenInputs [][]byte, blinds []group.Scalar)
+//@   invariant 0 <= i && i <= numTokens && numTokens == len(nonces) && len(tokenInputs) == numTokens && fresh(tokenInputs)
+//@   invariant len(blinds) == numTokens && fresh(blinds)
+//@   invariant forall(0, i, func(k int) bool { return fresh(tokenInputs[k]) && cap(tokenInputs[k]) == 98 && len(tokenInputs[k]) == 98 && string(tokenInputs[k]) == tokens.SpecTokenInput(BatchedPrivateTokenType, string(nonces[k]), SHA256(string(challenge)), string(tokenKeyID)) })
+//@   invariant forall(0, i, func(k int) bool { return blinds[k] != nil && BinEnc(blinds[k]) == string(encodedBlinds[k]) })
+//@ loop 1 vars(i int, numTokens int, encodedElements [][]byte, evalRequest *oprf.EvaluationRequest, tokenInputs [][]byte, finalizeData *oprf.FinalizeData)
+//@   invariant 0 <= i && i <= numTokens && numTokens == len(nonces) && len(encodedElements) == numTokens && fresh(encodedElements)
+//@   invariant evalRequest != nil && len(evalRequest.Elements) == numTokens
+//@   invariant len(tokenInputs) == numTokens && fresh(tokenInputs) && !SameSlice(tokenInputs, encodedElements)
+//@   invariant forall(0, numTokens, func(k int) bool { return fresh(tokenInputs[k]) && cap(tokenInputs[k]) == 98 && len(tokenInputs[k]) == 98 && string(tokenInputs[k]) == tokens.SpecTokenInput(BatchedPrivateTokenType, string(nonces[k]), SHA256(string(challenge)), string(tokenKeyID)) })
+//@   invariant forall(0, numTokens, func(k int) bool { return FDInput(finalizeData, k) == tokens.SpecTokenInput(BatchedPrivateTokenType, string(nonces[k]), SHA256(string(challenge)), string(tokenKeyID)) })
+//@   invariant forall(0, numTokens, func(k int) bool { return FDBlind(finalizeData, k) == string(encodedBlinds[k]) })
 //@ end
